@@ -7,7 +7,6 @@ import (
 	"strings"
 
 	"github.com/brimdata/super"
-	"github.com/brimdata/super/compiler"
 	"github.com/brimdata/super/runtime"
 	"github.com/brimdata/super/zson"
 	"github.com/segmentio/ksuid"
@@ -47,7 +46,7 @@ func lakeQuery(e *Env, c *Client, src string, par int) ([]string, error) {
 		e.W.Disk.HookTask = "q"
 		defer func() { e.W.Disk.HookTask = "" }()
 	}
-	comp := compiler.NewLakeCompiler(c.Root)
+	comp := c.Compiler()
 	seq, _, err := comp.Parse(src)
 	if err != nil {
 		return nil, err
@@ -135,11 +134,18 @@ func c09Body(w *World) *kernel.Violation {
 		"from p1 | sum(d)",
 		"from p1 | sum(u)",
 		"from p1 | count() by " + spec.KeyPath,
+		// a filter in front: the vector scan must apply it or not be used
+		"from p1 | d > 0 | sum(d)",
+		"from p1 | u > 3 | sum(u)",
+		"from p1 | d > 0 | count() by f",
+		"from p1 | " + spec.KeyPath + " >= 2 | sum(u)",
 	}
+	// Parallelism 1 never takes the vector path; one of 2 and 3 does.
+	pars := []int{1, 2 + wl.Intn(2)}
 	run := func(label string) (map[string][]string, *kernel.Violation) {
 		res := map[string][]string{}
 		for _, q := range queries {
-			for _, par := range []int{1, 2, 3} {
+			for _, par := range pars {
 				out, err := lakeQuery(e, c, q, par)
 				key := fmt.Sprintf("%s @%d", q, par)
 				if err != nil {
@@ -156,7 +162,7 @@ func c09Body(w *World) *kernel.Violation {
 	// The sequential plan must agree with itself across parallelism first;
 	// if not, that is C08's finding, not this property's.
 	for _, q := range queries {
-		if strings.Join(base[q+" @1"], "\n") != strings.Join(base[q+" @2"], "\n") {
+		if strings.Join(base[q+" @1"], "\n") != strings.Join(base[fmt.Sprintf("%s @%d", q, pars[1])], "\n") {
 			w.Out.Bucket = "parallelism-differs-without-vectors"
 			return nil
 		}
@@ -164,7 +170,7 @@ func c09Body(w *World) *kernel.Violation {
 	var knownViol *kernel.Violation
 	compare := func(label string, got map[string][]string) *kernel.Violation {
 		for _, q := range queries {
-			for _, par := range []int{1, 2, 3} {
+			for _, par := range pars {
 				key := fmt.Sprintf("%s @%d", q, par)
 				a, b := base[key], got[key]
 				if strings.Join(a, "\n") != strings.Join(b, "\n") {
@@ -243,6 +249,41 @@ func c09Body(w *World) *kernel.Violation {
 		}
 	}
 	w.Out.Probe("all-objects-vectorised")
+	if wl.Chance(1, 3) {
+		// The history goes on: an object that has a vector copy is deleted
+		// and new data arrives without one.  The answers with the remaining
+		// vector copies must be those without any.
+		if _, err := c.API.Delete(e.Ctx, id, "main", objs[:1], commitMsg); err != nil {
+			return kernel.Violatef(sig+":unexpected-error:delete", "delete of a vectorised object failed: %v", err)
+		}
+		for k, n := 0, wl.Range(1, 2); k < n; k++ {
+			recs := e.GenBatch(wl, &spec, wl.Range(1, 30), 20)
+			for j := range recs {
+				recs[j].Extra = c09Field(wl, fieldMix)
+			}
+			zctx := zed.NewContext()
+			rd, rerr := Reader(zctx, &spec, recs)
+			if rerr != nil {
+				panic(rerr)
+			}
+			if _, err := c.API.Load(e.Ctx, zctx, id, "main", rd, commitMsg); err != nil {
+				return kernel.Violatef(sig+":unexpected-error:load", "load after vector add failed: %v", err)
+			}
+		}
+		got, _ := run("all but new")
+		if len(objs) > 1 {
+			if _, err := c.API.DeleteVectors(e.Ctx, "p1", "main", objs[1:], commitMsg); err != nil {
+				return kernel.Violatef(sig+":unexpected-error:vector-del", "vector delete failed: %v", err)
+			}
+		}
+		base, _ = run("none (after delete and load)")
+		if v := compare("the older (objects loaded after the vector add have none)", got); v != nil {
+			return v
+		}
+		w.Out.Probe("vectorised-object-deleted-then-plain-load")
+		w.Out.Nontrivial = true
+		return knownViol
+	}
 	// And removing them again changes nothing either.
 	if wl.Chance(1, 2) {
 		if _, err := c.API.DeleteVectors(e.Ctx, "p1", "main", objs, commitMsg); err != nil {
